@@ -76,6 +76,7 @@
 void log_tls_get_error_stack(char *buf, size_t capacity)
 {
     __CPROVER_assert(capacity >= 1 && __CPROVER_w_ok(buf, capacity), "log_tls_get_error_stack: buffer writeable");
+    xv_err_drained = 1;     /* the real one empties OpenSSL's per-thread error queue */
     __CPROVER_havoc_slice(buf, capacity);
     buf[capacity - 1] = '\0';
 }
@@ -445,9 +446,11 @@ static void process_ssl_event(struct xcm_socket *s, int condition, int ssl_rc, i
 __CPROVER_requires(BT_FRESH(s) && BT_STATE_OK(s) && BT_ERR_CLASS_OK && ssl_rc == xv_ssl_last_ret && ssl_rc <= 0)
 /* assumption A2 of env/ssl_env.h, as a precondition: a SYSCALL failure without queued error does not carry EAGAIN */
 __CPROVER_requires((xv_ssl_err == SSL_ERROR_SYSCALL && xv_err_queue == 0) ==> (ssl_errno != EAGAIN && ssl_errno != EWOULDBLOCK))
-__CPROVER_assigns(BT_STATE(s), BT(s)->conn.badness_reason, BT(s)->conn.ssl_condition, BT(s)->conn.ssl_wants)
+__CPROVER_assigns(BT_STATE(s), BT(s)->conn.badness_reason, BT(s)->conn.ssl_condition, BT(s)->conn.ssl_wants, xv_err_drained)
 /* PO[C06] process_ssl_event.mapping */
 __CPROVER_ensures(BT_EV_MAP(s, condition, ssl_errno))
+/* PO[C07] process_ssl_event.error_queue_drained: a TLS protocol error leaves nothing in OpenSSL's per-thread error queue, where it would make the next harmless SSL_read/SSL_write result of ANOTHER connection of this thread look like a protocol error */
+__CPROVER_ensures((xv_ssl_err == SSL_ERROR_SSL || (xv_ssl_err == SSL_ERROR_SYSCALL && xv_err_queue != 0)) ==> (xv_err_drained ? 1 : 0) == 1)
 ;
 
 /* ---- try_finish_tls_handshake */
